@@ -383,9 +383,13 @@ def r35(chk, m):
     chk.analysed(fn)
     hooks = NewifHooks(m, Context)
     hooks.should_inline = A.private_only
-    it = A.Interp(model=m, scope=fn, hooks=hooks, max_iter=1, exc_edges=False, inline=2)
-    outs = it.run_function(fn, env={'name': 'iffoo', 'initial': A.Sym('INITIAL')})
-    need(len(outs) == 1, 'Context.newif is not single-path for a fresh name')
+    it = A.Interp(model=m, scope=fn, hooks=hooks, max_iter=6, exc_edges=False, inline=3, heap=True, precise_exc=True)
+    outs = [o for o in it.run_function(fn, env={'name': 'iffoo', 'initial': A.Sym('INITIAL')}) if o[0] != 'raise' or True]
+    if len(outs) != 1 or it.imprecise or it.unknown_branches:
+        for inst in ('newif: \\iffoo', 'newif: \\footrue', 'newif: \\foofalse'):
+            chk.undecided(R5, inst, 'Context.newif is not single-path for a fresh name (%d outcomes; %s)'
+                          % (len(outs), '; '.join((list(it.imprecise) + list(it.unknown_branches))[:2])), chk.where(fn))
+        return
     NewIf, IfTrue, IfFalse = (m.cls('plasTeX', n) for n in ('NewIf', 'IfTrue', 'IfFalse'))
     byname = {}
     for c, nm, bases, d in hooks.created:
